@@ -433,6 +433,26 @@ def r30_cli_flow(ctx):
               pa.loc(), "each offset list is unescaped from itself",
               "parse_args rebuilds %s: the offsets of one date-time are "
               "replaced by those of the other" % "; ".join(cross), P)
+    # an argument is handed to the library whole: the command line does
+    # not take it apart at a character the ISO 8601 notations use themselves
+    # (the decimal comma of PT1,5H, the ':' and '-' of a date-time)
+    for g_ in ctx.model.all_functions():
+        if g_.module.name != "main":
+            continue
+        for n in walk_no_nested(g_.node):
+            if isinstance(n, ast.Call) and isinstance(
+                    n.func, ast.Attribute) and n.func.attr in (
+                        "split", "rsplit", "partition", "rpartition") and \
+                    n.args and isinstance(n.args[0], ast.Constant) and \
+                    isinstance(n.args[0].value, str) and n.args[0].value \
+                    and all(ch in ",.:-+/TPWZ" for ch in n.args[0].value):
+                rep.violation(
+                    rule, ctx.fkey(g_, n, "split-argument"), g_.loc(n),
+                    "%s takes an argument apart at %r (`%s`): that "
+                    "character belongs to the ISO 8601 notations (PT1,5H, "
+                    "-PT0,25H - also what the command prints itself), so "
+                    "such an argument is cut in two and refused or "
+                    "misread" % (g_.qual, n.args[0].value, U(n)[:50]), P)
     strip_fd = any("replace('\\\\', '')" in U(n)
                    for n in walk_no_nested(fd.node))
     rep.check(esc and strips.get("args.offsets1") and
@@ -500,6 +520,38 @@ def r30_cli_flow(ctx):
               "was parsed with unless --print-format is given",
               "date_parse/process_time_point_str no longer carry the "
               "parsed expression through as the print format", P)
+    # the print format is the caller's: a method of the operator that
+    # takes a `print_format` formats with that - a missing one means "as the
+    # library writes it" (str(point) / the notation parsed) and is not
+    # replaced by a format of the operator's choosing
+    for g_ in ctx.model.all_functions():
+        if g_.module.name != "datetimeoper" or "print_format" not in (
+                list(g_.params) + list(g_.kwonly)):
+            continue
+        for n in walk_no_nested(g_.node):
+            tgts = []
+            if isinstance(n, ast.Assign):
+                tgts = n.targets
+            elif isinstance(n, (ast.AugAssign, ast.AnnAssign)):
+                tgts = [n.target]
+            for t in tgts:
+                for x in ast.walk(t):
+                    if isinstance(x, ast.Name) and x.id == "print_format" \
+                            and isinstance(getattr(n, "value", None),
+                                           ast.AST) and not any(
+                                isinstance(y, ast.Name) and
+                                y.id in g_.params and y.id not in (
+                                    "print_format", g_.self_name)
+                                for y in ast.walk(n.value)):
+                        rep.violation(
+                            "R30.notation",
+                            ctx.fkey(g_, n, "format-rebound"), g_.loc(n),
+                            "%s replaces the caller's print format by "
+                            "`%s`: without a format the command prints what "
+                            "the library writes for the point (its own "
+                            "notation, offset and precision), not a format "
+                            "the operator picks" % (g_.qual,
+                                                    U(n.value)[:50]), P)
     # recurrence output: first N in order
     rule = "R30.recurrence-output"
     lp = [n for n in walk_no_nested(main.node) if isinstance(n, ast.For) and
